@@ -1376,9 +1376,6 @@ impl History {
             if shared && self.actors[a].persistent && !self.triggers.persistent_shared {
                 continue;
             }
-            if self.actors[a].alias_max > 0 && (f.contains('+') || f.contains('#')) && !self.triggers.alias_wildcard {
-                continue;
-            }
             if let Some(old) = self.actors[a].held.get(&path) {
                 // the well-behaved pair never pulls a known-finding trigger
                 if *old != qos && (!self.triggers.resub_other_qos || self.actors[a].guarded) {
